@@ -135,6 +135,125 @@ var scripts = map[string][]step{
 		}, []seg{{3, fixed("* 1 FETCH (FLAGS (\\Seen))\r\n")}, {3, tagged(2, "OK fetch first")},
 			{3, fixed("* STATUS Other (MESSAGES 4)\r\n")}, {3, tagged(1, "OK status second")}, {3, tagged(0, "OK noop last")}}, []int{4, 3, 1}},
 	},
+	// data nobody asked for, with literals: an unsolicited FETCH carrying a body, a second FETCH response for
+	// a message the command has already been given, a UID FETCH answer whose body comes before the UID item
+	// (the client has no handler for unilateral data)
+	"unsol": {
+		{1, func(cl *imapclient.Client) []error { return one(cl.Login("u", "p").Wait()) },
+			[]seg{{1, tagged(0, "OK [CAPABILITY IMAP4rev1] in")}}, []int{0}},
+		{1, func(cl *imapclient.Client) []error { _, err := cl.Select("INBOX", nil).Wait(); return one(err) },
+			[]seg{{1, fixed("* 2 EXISTS\r\n")}, {1, tagged(0, "OK sel")}}, []int{1}},
+		{1, func(cl *imapclient.Client) []error { return one(cl.Noop().Wait()) },
+			[]seg{{1, fixed("* 1 FETCH (FLAGS (\\Seen) BODY[] " + lit("unsolicited body") + ")\r\n* 2 FETCH (BODY[HEADER] \"quoted body\")\r\n")}, {1, tagged(0, "OK noop")}}, []int{1}},
+		{1, func(cl *imapclient.Client) []error {
+			var one1 imap.SeqSet
+			one1.AddNum(1)
+			_, err := cl.Fetch(one1, &imap.FetchOptions{BodySection: []*imap.FetchItemBodySection{{}}}).Collect()
+			return one(err)
+		}, []seg{{1, fixed("* 1 FETCH (BODY[] " + lit("first answer") + ")\r\n* 1 FETCH (BODY[] " + lit("the same message again") + ")\r\n")},
+			{1, tagged(0, "OK fetched")}}, []int{1}},
+		{1, func(cl *imapclient.Client) []error {
+			var u imap.UIDSet
+			u.AddNum(7)
+			_, err := cl.Fetch(u, &imap.FetchOptions{UID: true, BodySection: []*imap.FetchItemBodySection{{}}}).Collect()
+			return one(err)
+		}, []seg{{1, fixed("* 1 FETCH (BODY[] " + lit("body before the uid") + " UID 7)\r\n")}, {1, tagged(0, "OK uid fetched")}}, []int{1}},
+		{1, func(cl *imapclient.Client) []error { return one(cl.Noop().Wait()) },
+			[]seg{{1, tagged(0, "OK still usable")}}, []int{0}},
+	},
+	// streaming commands consumed item by item, literals read partly, commands closed early
+	"stream": {
+		{1, func(cl *imapclient.Client) []error { return one(cl.Login("u", "p").Wait()) },
+			[]seg{{1, tagged(0, "OK [CAPABILITY IMAP4rev1] in")}}, []int{0}},
+		{1, func(cl *imapclient.Client) []error { _, err := cl.Select("INBOX", nil).Wait(); return one(err) },
+			[]seg{{1, fixed("* 3 EXISTS\r\n")}, {1, tagged(0, "OK sel")}}, []int{1}},
+		{1, func(cl *imapclient.Client) []error {
+			cmd := cl.Fetch(seq12, &imap.FetchOptions{UID: true, BodySection: []*imap.FetchItemBodySection{{}}})
+			if msg := cmd.Next(); msg != nil {
+				for {
+					it := msg.Next()
+					if it == nil {
+						break
+					}
+					if b, ok := it.(imapclient.FetchItemDataBodySection); ok && b.Literal != nil {
+						buf := make([]byte, 4)
+						io.ReadFull(b.Literal, buf) // only the beginning of the body
+						break
+					}
+				}
+			}
+			return one(cmd.Close()) // the rest of the message and the second message are dropped
+		}, []seg{{1, fixed("* 1 FETCH (UID 1 BODY[] " + lit("a body that is read only partly") + " FLAGS (\\Seen))\r\n* 2 FETCH (UID 2 BODY[] " + lit("never looked at") + ")\r\n")},
+			{1, tagged(0, "OK fetched")}}, []int{1}},
+		{1, func(cl *imapclient.Client) []error {
+			cmd := cl.List("", "%", nil)
+			cmd.Next()
+			return one(cmd.Close())
+		}, []seg{{1, fixed("* LIST () \"/\" a\r\n* LIST () \"/\" " + lit("b c") + "\r\n* LIST (\\Noselect) \"/\" d\r\n")}, {1, tagged(0, "OK listed")}}, []int{1}},
+		{1, func(cl *imapclient.Client) []error {
+			cmd := cl.Expunge()
+			cmd.Next()
+			return one(cmd.Close())
+		}, []seg{{1, fixed("* 3 EXPUNGE\r\n* 1 EXPUNGE\r\n")}, {1, tagged(0, "OK expunged")}}, []int{1}},
+		{2, func(cl *imapclient.Client) []error {
+			// two streaming commands in flight, the first one closed before the second is looked at
+			var one1 imap.SeqSet
+			one1.AddNum(1)
+			a := cl.Fetch(one1, &imap.FetchOptions{Flags: true})
+			b := cl.List("", "*", nil)
+			errA := a.Close()
+			_, errB := b.Collect()
+			return []error{errA, errB}
+		}, []seg{{2, fixed("* 1 FETCH (FLAGS ())\r\n")}, {2, tagged(0, "OK a")}, {2, fixed("* LIST () \"/\" a\r\n")}, {2, tagged(1, "OK b")}}, []int{1, 3}},
+	},
+	// the extension commands, each with its own data response
+	"ext": {
+		{1, func(cl *imapclient.Client) []error { return one(cl.Login("u", "p").Wait()) },
+			[]seg{{1, tagged(0, "OK [CAPABILITY IMAP4rev1 ENABLE NAMESPACE SORT THREAD=REFERENCES QUOTA METADATA LIST-STATUS MOVE UIDPLUS UNSELECT] in")}}, []int{0}},
+		{1, func(cl *imapclient.Client) []error { _, err := cl.Capability().Wait(); return one(err) },
+			[]seg{{1, fixed("* CAPABILITY IMAP4rev1 ENABLE NAMESPACE SORT THREAD=REFERENCES QUOTA METADATA LIST-STATUS MOVE UIDPLUS UNSELECT\r\n")}, {1, tagged(0, "OK caps")}}, []int{1}},
+		{1, func(cl *imapclient.Client) []error { _, err := cl.Enable(imap.CapMetadata).Wait(); return one(err) },
+			[]seg{{1, fixed("* ENABLED METADATA\r\n")}, {1, tagged(0, "OK enabled")}}, []int{1}},
+		{1, func(cl *imapclient.Client) []error { _, err := cl.Namespace().Wait(); return one(err) },
+			[]seg{{1, fixed("* NAMESPACE ((\"\" \"/\")) NIL ((" + lit("Shared/") + " \"/\"))\r\n")}, {1, tagged(0, "OK ns")}}, []int{1}},
+		{1, func(cl *imapclient.Client) []error {
+			_, err := cl.List("", "*", &imap.ListOptions{ReturnStatus: &imap.StatusOptions{NumMessages: true}}).Collect()
+			return one(err)
+		}, []seg{{1, fixed("* LIST () \"/\" INBOX\r\n* STATUS INBOX (MESSAGES 2)\r\n* LIST () \"/\" Other\r\n* STATUS Other (MESSAGES 0)\r\n* LIST (\\Noselect) \"/\" Dir\r\n")},
+			{1, tagged(0, "OK listed")}}, []int{1}},
+		{1, func(cl *imapclient.Client) []error { _, err := cl.GetQuotaRoot("INBOX").Wait(); return one(err) },
+			[]seg{{1, fixed("* QUOTAROOT INBOX \"\"\r\n* QUOTA \"\" (STORAGE 10 512)\r\n")}, {1, tagged(0, "OK quotaroot")}}, []int{1}},
+		{1, func(cl *imapclient.Client) []error { _, err := cl.GetQuota("").Wait(); return one(err) },
+			[]seg{{1, fixed("* QUOTA \"\" (STORAGE 10 512 MESSAGE 2 100)\r\n")}, {1, tagged(0, "OK quota")}}, []int{1}},
+		{1, func(cl *imapclient.Client) []error {
+			_, err := cl.GetMetadata("INBOX", []string{"/private/comment"}, nil).Wait()
+			return one(err)
+		}, []seg{{1, fixed("* METADATA INBOX (/private/comment " + lit("my comment") + ")\r\n")}, {1, tagged(0, "OK metadata")}}, []int{1}},
+		{1, func(cl *imapclient.Client) []error { _, err := cl.Select("INBOX", nil).Wait(); return one(err) },
+			[]seg{{1, fixed("* 2 EXISTS\r\n* LIST () \"/\" INBOX\r\n")}, {1, tagged(0, "OK [READ-WRITE] sel")}}, []int{1}},
+		{1, func(cl *imapclient.Client) []error {
+			_, err := cl.Sort(&imapclient.SortOptions{SearchCriteria: &imap.SearchCriteria{}, SortCriteria: []imapclient.SortCriterion{{Key: imapclient.SortKeyDate}}}).Wait()
+			return one(err)
+		}, []seg{{1, fixed("* SORT 2 1\r\n")}, {1, tagged(0, "OK sorted")}}, []int{1}},
+		{1, func(cl *imapclient.Client) []error {
+			_, err := cl.Thread(&imapclient.ThreadOptions{Algorithm: imap.ThreadReferences, SearchCriteria: &imap.SearchCriteria{}}).Wait()
+			return one(err)
+		}, []seg{{1, fixed("* THREAD (1 (2))\r\n")}, {1, tagged(0, "OK threaded")}}, []int{1}},
+		{1, func(cl *imapclient.Client) []error {
+			_, err := cl.UIDSearch(&imap.SearchCriteria{}, &imap.SearchOptions{ReturnMin: true, ReturnCount: true}).Wait()
+			return one(err)
+		}, []seg{{1, func(t []string) string { return "* ESEARCH (TAG \"" + t[0] + "\") UID MIN 1 COUNT 2\r\n" }}, {1, tagged(0, "OK searched")}}, []int{1}},
+		{1, func(cl *imapclient.Client) []error { _, err := cl.Move(seq12, "Other").Wait(); return one(err) },
+			[]seg{{1, fixed("* OK [COPYUID 9 1:2 5:6] moved\r\n* 2 EXPUNGE\r\n* 1 EXPUNGE\r\n")}, {1, tagged(0, "OK moved")}}, []int{1}},
+		{1, func(cl *imapclient.Client) []error {
+			var u imap.UIDSet
+			u.AddNum(3)
+			_, err := cl.UIDExpunge(u).Collect()
+			return one(err)
+		}, []seg{{1, tagged(0, "OK nothing to expunge")}}, []int{0}},
+		{1, func(cl *imapclient.Client) []error { return one(cl.Unselect().Wait()) },
+			[]seg{{1, tagged(0, "OK unselected")}}, []int{0}},
+	},
 }
 
 type caseT struct {
@@ -327,8 +446,16 @@ func main() {
 	outPath := os.Args[2]
 	layouts := map[string][]int{}
 	totals := map[string]int{}
+	skipped := map[string]bool{}
 	for name := range scripts {
 		dry := runCase(caseT{Script: name, Cut: -1, Fault: "none"})
+		if dry.hung && dry.hungAt == "" {
+			// the transcript without any fault is a transcript too: calls or Close that do not return are
+			// what the property forbids (the script is left out of the fault enumeration)
+			out.Mismatch("hang/"+name+"/nofault", fmt.Sprintf("script %s without any fault: calls or Close did not return within 4 s (closed=%v issued=%d returned=%d)", name, dry.closed, dry.issued, len(dry.rets)), caseT{name, -1, "none"})
+			skipped[name] = true
+			continue
+		}
 		if dry.hung || len(dry.rets) == 0 {
 			out.Summary(map[string]interface{}{"infra_error": fmt.Sprintf("dry run of script %s failed: %+v", name, dry)})
 			return
@@ -355,6 +482,9 @@ func main() {
 		fs.Parse(os.Args[3:])
 		rng := rand.New(rand.NewSource(*seed))
 		for name := range scripts {
+			if skipped[name] {
+				continue
+			}
 			for k := 0; k <= totals[name]; k++ {
 				for _, f := range []string{"eof", "readerr", "writeerr", "stall"} {
 					if *stride > 1 && k%*stride != rng.Intn(*stride) && !isBoundary(layouts[name], k) {
